@@ -33,6 +33,9 @@ GNext ==
     \/ \E g \in Groups, b \in BOOLEAN :
           /\ ~Last /\ g <= gcount /\ canSign[g] # b /\ SetCanSign(g, b) /\ out' = out
           /\ script' = Append(script, [e |-> "SetCanSign", g |-> g, b |-> b])
+    \/ \E f \in FeeSet :
+          /\ ~Last /\ SetFee(f)
+          /\ script' = Append(script, [e |-> "SetFee", f |-> f])
     \/ \E p \in Payer \cup {"authority"}, limit \in LimitSet, lx \in {0, 1}, incOK \in BOOLEAN :
           \E S \in ComOrNone(current), SI \in ComOrNone(Incoming) :
           /\ ~Last /\ Request(p, limit, lx, S, incOK, SI)
